@@ -31,7 +31,7 @@ U64 = 2 ** 64
 
 MEMBERS = {
     'none': [[]],
-    'word': [['x'], ['foo.txt'], ["'a b'"], ['"c d"'], ['a"b'], ['x*'], ['é'], ["'q)r'"], ['-print'], ['5'], ["'-o'"],
+    'word': [['x'], ['foo.txt'], ["'a b'"], ['"c d"'], ["'a  b'"], ['"c\td"'], ["'e\nf'"], ['"  g  "'], ["'h \t i'"], ['"*/my\tdir/*"'], ["'.* \\( .*'"], ['"x \\! y"'], ['a"b'], ['x*'], ['é'], ["'q)r'"], ['-print'], ['5'], ["'-o'"],
              ['"dir\\"'], ["'dir\\'"], ['dir\\'], ['"a\\\\"'], ['"C:\\tmp\\"'], ['"a\\b"'], ['"{}"'], ['{mdt}'], ["'a(b'"], ['":)"'], ['日本'], ["'é x'"]],
     'cmp32': [['0'], ['5'], ['+5'], ['-5'], ['007'], [str(U32 - 1)], ['+' + str(U32 - 1)], ['-0'], ['00000000000000000001']],
     'cmp64': [['0'], ['5'], ['+5'], ['-5'], [str(U32)], [str(U64 - 1)], ['+' + str(U64 - 1)]],
@@ -41,7 +41,7 @@ MEMBERS = {
     'types': [['f'], ['d'], ['f,d'], ['b,c,p,l,s'], ['f,f'], ['l'], ['s,b']] + [[','.join(c)] for n in (3, 4) for c in __import__('itertools').product('fdl', repeat=n)],
     'perm': [['644'], ['0644'], ['7777'], ['000'], ['-644'], ['/222'], ['u+x'], ['-u+x'], ['/u+x'], ['a=r'], ['ug=rw'],
              ['u=rwx,g=rx,o=r'], ["'u+r'"], ['"g+w"'], ['a+rwx'], ['o=x,o=w'], ['u+r,g+r,o+r'], ['-a-x'], ['00644'], ['/o-w']],
-    'format': [["'%p\\n'"], ['"%p %s\\n"'], ["'abc'"], ['%p'], ["'%%'"], ["'\\101'"], ["'%A@ %Tk %CY'"], ["'%{fid} %{xattr:user}\\0'"],
+    'format': [["'%p\\n'"], ['"%p %s\\n"'], ["'%p  %s\\n'"], ['"a\tb %p"'], ["'abc'"], ['%p'], ["'%%'"], ["'\\101'"], ["'%A@ %Tk %CY'"], ["'%{fid} %{xattr:user}\\0'"],
                ["'a\\qb'"], ["'\\\\'"], ["'%u%g\\t%m'"], ["'x'"],
                # every documented escape (octal with leading 0, 1..7, and the extremes) and every documented directive, each in one argument
                ["'\\a\\b\\f\\n\\r\\t\\v\\0\\\\'"], ["'\\012'"], ["'\\000'"], ["'\\033[1m%f\\033[0m'"], ["'\\101\\777\\0000\\08'"],
@@ -138,7 +138,7 @@ def gen_vocab(tier, rnd):
                 lines.append('P %s' % hx('-true ' + a))
                 lines.append('P %s' % hx(a + ' x'))
     # unknown words
-    for w in ['bogus', '-zzz', '@@', 'foo.bar', '-Name', '-PRINT', '--print', '-lname']:
+    for w in ['bogus', '-zzz', '@@', 'foo.bar', '-Name', '-PRINT', '--print', '-lname', '\\(', '\\)', '\\!', '\\,', '\\-true']:
         for ctx in ['alone', 'after', 'before']:
             lines.append('P %s #unknownword=%s' % (hx(in_ctx(ctx, w)), hx(w)))
     return lines, {'rule': 'every keyword of the vocabulary (%d) x members of its argument language (fixed boundary-rich list + %d random per keyword) x 7 contexts, and x systematic non-members (missing argument, trailing/embedded junk, out-of-range) x up to 5 contexts; every keyword mangled into a non-keyword (one character appended, dropped, case changed, dash doubled or dropped), alone, in context and followed by would-be arguments; non-trivial = every request'
@@ -369,7 +369,7 @@ def long_bad_words():
 
 LONG_BAD = long_bad_words()
 for _k in ('time', 'cmp32', 'cmp64', 'u32', 'size', 'types', 'perm'):
-    BADWORDS[_k] = BADWORDS[_k] + ["'abc def'", '"x y"', "'a)b'", '"q\tr"'] + ['qq', 'xyz', 'xy9', 'xyz,f', 'zzzz', 'Q_', 'qé', 'é', '€uro', 'q,q'] + LONG_BAD
+    BADWORDS[_k] = BADWORDS[_k] + ["'abc def'", '"x y"', "'a)b'", '"q\tr"'] + ['qq', 'xyz', 'xy9', 'xyz,f', 'zzzz', 'Q_', 'qé', 'é', '€uro', 'q,q', "'x", '"k', "'", '"', "'q\"", 'x\'y'] + LONG_BAD
 VALID_PRIMS = ['-true', '-name a', '-uid 5', '-type f', '-size +1k', '-print', '-empty']
 
 
@@ -543,6 +543,11 @@ def _rand_layout_tree(rnd, depth):
         if rnd.random() < 0.5:
             kw, vals = rnd.choice(QUOTABLE)
             return ('q', kw, rnd.choice(vals))
+        if rnd.random() < 0.4:
+            # any keyword with any member of its argument language (as written in the vocabulary table): the layout
+            # around it — blanks of every kind, glued parentheses, either AND spelling — must not matter
+            kw = rnd.choice([k for k in KW if k not in OPTIONS])
+            return ('p', ' '.join([kw] + rnd.choice(MEMBERS[KW[kw]])))
         return ('p', rnd.choice(PLAIN))
     k = rnd.random()
     if k < 0.15:
@@ -624,6 +629,19 @@ def gen_layout(tier, rnd):
         lines.append('P %s #grp=l%d' % (hx(join_layout(lead + spell_layout(t, rnd, 0, True), rnd, True)), g))
         for _ in range(v - 1):
             lines.append('P %s #grp=l%d' % (hx(join_layout(lead + spell_layout(t, rnd, 0), rnd)), g))
+    # every keyword with every member of its argument language inside redundant parentheses, glued or not (a word ends
+    # at a closing parenthesis exactly as it ends at a blank), alone, under ! and next to an operator
+    gi = 0
+    for kw, kind in KW.items():
+        if kw in OPTIONS:
+            continue
+        for args in MEMBERS[kind]:
+            prim = ' '.join([kw] + args)
+            shapes = [prim, '( ' + prim + ' )', '(' + prim + ')', '( ' + prim + ')', '(' + prim + ' )', '((' + prim + '))', '( (' + prim + ') )', '(\t' + prim + '\n)']
+            for ctx in ['%s', '! %s', '-true -o %s', '%s -a -false']:
+                gi += 1
+                for sh in shapes:
+                    lines.append('P %s #grp=par%d' % (hx(ctx % sh), gi))
     # leading options alone and in front of one primary, behind every kind of leading blank
     for gi, body in enumerate([['-depth'], ['-threads', '4'], ['-depth', '-threads', '2'], ['-threads', '4', '-name', 'foo'], ['-depth', '-print'],
                                ['-depth', '-threads', '2', '-type', 'f', '-o', '-size', '+1k'], ['-threads', '1', '(', '-name', 'x', ')']]):
